@@ -91,7 +91,9 @@ def child(cid, root, op, kill, half=False):
 
 
 def reader(cid, root):
-    p = subprocess.run([sys.executable, '-m', 'bounded.archive_read', cid, root, 'store'], cwd=VERIF, env=_env(), capture_output=True,
+    env = _env()
+    env['PYTHONHASHSEED'] = '4711'        # the process that recovers the archive has another hash seed than the one that was killed
+    p = subprocess.run([sys.executable, '-m', 'bounded.archive_read', cid, root, 'store'], cwd=VERIF, env=env, capture_output=True,
                        text=True, timeout=300)
     return (p.stdout.strip().splitlines() or ['ERR no output: ' + p.stderr[-200:]])[-1]
 
